@@ -1,6 +1,169 @@
+(* Props/C16.v — Asynchronous (Twisted) client matches pipelined replies by transaction id.
+   ONLY statements; proofs in proofs/Async_proofs.v (generic in the code record, by induction over
+   arbitrary histories) and proofs/AsyncGen_proofs.v (facts about the regenerated record and the
+   refutation witnesses).  Everything below is about [GenAsync.code], the record the translator
+   regenerates from twisted/__init__.py, transaction.py and constants.py on every run.
+   A history is ANY list of Execute / Segment (reply frames) / Lost / Made / Skip n; deferreds are
+   named by the allocation index of their transaction id. *)
 From PM.theories Require Import Base AsyncClient.
 From PM.Generated Require Import GenAsync.
+From PM.proofs Require Import Async_proofs AsyncGen_proofs.
+From Coq Require Import Permutation.
+Open Scope list_scope.
 Open Scope N_scope.
-Example C16_generated_good : good_code GenAsync.code.
-Proof. repeat split; reflexivity. Qed.
+
+(* the regenerated record has the increment, mask, guards, loops and exception classes the
+   theorems rely on (mask 0xff, a dropped errback loop, a missing guard ... break this) *)
+Theorem C16_generated_good : good_code code.
+Proof. exact gen_good. Qed.
 Print Assumptions C16_generated_good.
+
+(* --- fires at most once / exactly once ----------------------------------------------------- *)
+
+(* every deferred ever returned is, at every point of every history, in exactly one of:
+   displaced from the table, pending, fired — and there exactly once (both variants) *)
+Theorem C16_partition : forall v ops,
+  let σ := arun code v ops (init_state code) in
+  Permutation (a_lost σ ++ pending_dids σ ++ fired_dids σ) (issued σ) /\ NoDup (issued σ).
+Proof. exact (partition_all_histories code gen_good). Qed.
+Print Assumptions C16_partition.
+
+Theorem C16_once : forall v ops, NoDup (fired_dids (arun code v ops (init_state code))).
+Proof. exact (once_all_histories code gen_good). Qed.
+Print Assumptions C16_once.
+
+(* once the table is empty (e.g. right after connectionLost, or after the last reply) and no slot
+   was ever overwritten, every deferred handed out has fired exactly once *)
+Theorem C16_exactly_once : forall v ops,
+  let σ := arun code v ops (init_state code) in
+  a_pending σ = [] -> a_lost σ = [] -> Permutation (fired_dids σ) (issued σ) /\ NoDup (fired_dids σ).
+Proof. exact (exactly_once_when_drained code gen_good). Qed.
+Print Assumptions C16_exactly_once.
+
+(* window hypothesis (fewer than 65536 tids handed out since every registered request was issued,
+   checked at each Execute) => no slot is ever overwritten *)
+Theorem C16_no_overwrite : forall v ops, safe_run code v ops (init_state code) = true ->
+  a_lost (arun code v ops (init_state code)) = [].
+Proof. exact (no_overwrite_from_init code gen_good). Qed.
+Print Assumptions C16_no_overwrite.
+
+(* --- the right reply (dictionary variant, any arrival order) ---------------------------------- *)
+
+Theorem C16_right_reply : forall ops d tid rid,
+  let σ := arun code VDict ops (init_state code) in
+  In (d, OCb tid rid) (a_fired σ) -> In (d, tid) (a_sent σ).
+Proof. exact (right_reply_all_histories code gen_good). Qed.
+Print Assumptions C16_right_reply.
+
+(* a reply whose tid is pending fires exactly that deferred with exactly that reply *)
+Theorem C16_solicited_delivered : forall σ u tid rid d p',
+  dpop (a_pending σ) tid = Some (d, p') ->
+  let σ' := astep code VDict σ (Segment [(u, tid, rid)]) in
+  a_fired σ' = a_fired σ ++ [(d, OCb tid rid)] /\ a_pending σ' = p'.
+Proof. exact (solicited_delivered code gen_good). Qed.
+Print Assumptions C16_solicited_delivered.
+
+(* --- distinct transaction ids ------------------------------------------------------------------ *)
+
+Theorem C16_tid_on_wire : forall v ops d t,
+  In (d, t) (a_sent (arun code v ops (init_state code))) -> t = (ac_tid_init code + d) mod 65536 /\ t < 65536.
+Proof. exact (sent_tid_formula code gen_good). Qed.
+Print Assumptions C16_tid_on_wire.
+
+Theorem C16_distinct : forall v ops d1 d2 t1 t2,
+  let σ := arun code v ops (init_state code) in
+  (forall d, In d (outstanding σ) -> a_alloc σ - d < 65536) ->      (* window σ < 65536 *)
+  In d1 (outstanding σ) -> In d2 (outstanding σ) -> d1 <> d2 ->
+  In (d1, t1) (a_sent σ) -> In (d2, t2) (a_sent σ) -> t1 <> t2.
+Proof. exact (distinct_in_window code gen_good). Qed.
+Print Assumptions C16_distinct.
+
+(* the property text has no window hypothesis; without it the statement is false: *)
+Definition C16_distinct_full_statement : Prop := forall ops d1 d2 t,
+  let σ := arun code VDict ops (init_state code) in
+  In d1 (outstanding σ) -> In d2 (outstanding σ) ->
+  sent_tid (a_sent σ) d1 = Some t -> sent_tid (a_sent σ) d2 = Some t -> d1 = d2.
+
+Theorem C16_distinct_refuted :
+  let σ := arun code VDict wrap_history (init_state code) in
+  In 1 (outstanding σ) /\ In 65537 (outstanding σ) /\
+  sent_tid (a_sent σ) 1 = Some 1 /\ sent_tid (a_sent σ) 65537 = Some 1 /\ a_lost σ = [1].
+Proof. exact wrap_same_tid. Qed.
+Print Assumptions C16_distinct_refuted.
+
+(* ... and the overwritten deferred never fires, not even at connectionLost *)
+Theorem C16_once_refuted :
+  let σ := arun code VDict (wrap_history ++ [Reply 1 7; Lost]) (init_state code) in
+  In 1 (issued σ) /\ ~ In 1 (fired_dids σ) /\ a_pending σ = [] /\ a_fired σ = [(65537, OCb 1 7)].
+Proof. exact wrap_never_fires. Qed.
+Print Assumptions C16_once_refuted.
+
+Theorem C16_window_is_sharp :
+  safe_run code VDict [Made; Execute; Skip 65534; Execute] (init_state code) = true /\
+  safe_run code VDict wrap_history (init_state code) = false.
+Proof. exact wrap_window_ok. Qed.
+Print Assumptions C16_window_is_sharp.
+
+(* --- unsolicited and duplicate replies (dictionary variant) -------------------------------------- *)
+
+Theorem C16_unsolicited_dropped : forall ops u tid rid,
+  let σ := arun code VDict ops (init_state code) in
+  ~ In tid (map fst (a_pending σ)) -> astep code VDict σ (Segment [(u, tid, rid)]) = σ.
+Proof. exact (unsolicited_dropped code gen_good). Qed.
+Print Assumptions C16_unsolicited_dropped.
+
+Theorem C16_duplicate_dropped : forall ops u tid rid u' rid',
+  let σ := arun code VDict ops (init_state code) in
+  let σ1 := astep code VDict σ (Segment [(u, tid, rid)]) in
+  astep code VDict σ1 (Segment [(u', tid, rid')]) = σ1.
+Proof. exact (duplicate_dropped code gen_good). Qed.
+Print Assumptions C16_duplicate_dropped.
+
+(* --- connection loss ----------------------------------------------------------------------------- *)
+
+Theorem C16_lost : forall v σ,
+  let σ' := astep code v σ Lost in
+  a_pending σ' = [] /\ a_conn σ' = false /\
+  a_fired σ' = a_fired σ ++ map (fun x => (snd x, OErr ConnectionExc)) (a_pending σ).
+Proof. exact (lost_errbacks_all code gen_good). Qed.
+Print Assumptions C16_lost.
+
+Theorem C16_execute_after_lost : forall v σ, a_conn σ = false ->
+  let σ' := astep code v σ Execute in
+  a_pending σ' = a_pending σ /\ a_conn σ' = false /\
+  a_fired σ' = a_fired σ ++ [(a_alloc σ + 1, OErr ConnectionExc)].
+Proof. exact (execute_when_disconnected code gen_good). Qed.
+Print Assumptions C16_execute_after_lost.
+
+Theorem C16_stays_lost : forall v ops σ, a_conn σ = false -> no_made ops = true ->
+  a_conn (arun code v ops σ) = false.
+Proof. exact (disconnected_stays code). Qed.
+Print Assumptions C16_stays_lost.
+
+(* --- limits of the unmodified code, as witnesses ---------------------------------------------------- *)
+
+(* replies for different units coalesced into one segment: everything behind the first foreign
+   unit is dropped (dataReceived takes the unit filter from the first frame) *)
+Theorem C16_mixed_unit_refuted :
+  let σ := arun code VDict [Made; Execute; Execute; Segment [(1, 1, 11); (2, 2, 12)]] (init_state code) in
+  a_fired σ = [(1, OCb 1 11)] /\ a_pending σ = [(2, 2)].
+Proof. exact mixed_unit_dropped. Qed.
+Print Assumptions C16_mixed_unit_refuted.
+
+(* FIFO (serial) variant: no transaction id on the wire, so an unsolicited frame cannot be dropped;
+   it is handed to the oldest pending request *)
+Theorem C16_fifo_unsolicited_misdelivered :
+  let σ := arun code VFifo [Made; Execute; Execute; Segment [(1, 999, 5)]] (init_state code) in
+  a_fired σ = [(1, OCb 999 5)] /\ a_pending σ = [(2, 2)].
+Proof. exact fifo_unsolicited. Qed.
+Print Assumptions C16_fifo_unsolicited_misdelivered.
+
+(* the hypotheses above are satisfiable together on a history in which deferreds really fire *)
+Example C16_nonvacuous :
+  let ops := [Made; Execute; Execute; Execute; Reply 3 30; Reply 1 10; Reply 9 90; Reply 1 11; Lost; Execute] in
+  let σ := arun code VDict ops (init_state code) in
+  safe_run code VDict ops (init_state code) = true /\
+  a_fired σ = [(3, OCb 3 30); (1, OCb 1 10); (2, OErr ConnectionExc); (4, OErr ConnectionExc)] /\
+  a_pending σ = [] /\ a_lost σ = [].
+Proof. exact nonvacuous_history. Qed.
+Print Assumptions C16_nonvacuous.
